@@ -912,12 +912,34 @@ class Engine:
             if not self.branch(v.n == n):
                 self.raise_exc("ValueError", node)
             return [self.wrap_elem(v, v.at(z3.IntVal(i))) for i in range(n)]
+        con0 = getattr(self.vf, "current", None)
+        if isinstance(v, VOpaque) and getattr(v, "split_of", None) is not None and n == 2 \
+                and con0 is not None and con0.options.get("exact_split_unpack"):
+            # a, b = x.split(<one byte>): exactly when the separator occurs exactly once, at position p;
+            # then a == x[:p] and b == x[p+1:]; any other number of occurrences is a ValueError (arity)
+            from .models import seq_slice_raw
+            sseq, sepb = v.split_of
+            p = fresh_int("split_at")
+            j = fresh_bound("j")
+            once = z3.And(0 <= p, p < sseq.n, sseq.at(p) == sepb,
+                          z3.ForAll([j], z3.Implies(z3.And(0 <= j, j < sseq.n, j != p), sseq.at(j) != sepb)))
+            if not self.branch(self._split_once(sseq, sepb)):
+                self.raise_exc("ValueError", node)
+            self.assume(once)
+            return [seq_slice_raw(sseq, z3.IntVal(0), p, "bytes"), seq_slice_raw(sseq, p + 1, sseq.n - p - 1, "bytes")]
         if isinstance(v, VOpaque):
             # unknown iterable: may have the wrong arity; its components are ghost projections of it
             if not self.branch(fresh_bool("unpack_ok")):
                 self.raise_exc("ValueError", node)
             return [VOpaque(self.models.field_f(i, n)(v.t), tag=f"unpack{i}") for i in range(n)]
         raise OutOfSubset(node, f"unpack of {v!r}")
+
+    def _split_once(self, sseq, sepb):
+        """the byte sepb occurs exactly once in sseq (closed formula: fresh bound variables)"""
+        p = fresh_bound("p")
+        j = fresh_bound("j")
+        return z3.Exists([p], z3.And(0 <= p, p < sseq.n, sseq.at(p) == sepb,
+                                     z3.ForAll([j], z3.Implies(z3.And(0 <= j, j < sseq.n, j != p), sseq.at(j) != sepb))))
 
     def wrap_elem(self, seq: VSeq, t):
         if seq.esort == "val":
